@@ -99,15 +99,13 @@ Fixpoint take_while_go (toks : list str) (d r : str) : str * cur :=
 Definition take_while (toks : list str) (c : cur) : str * cur := take_while_go toks (done c) (rest c).
 Definition skip_ws (c : cur) : cur := snd (take_while WS c).
 
-(* take_until(tokens, ignore): the ignore token (at most one is ever passed: backslash + quote) is consumed
-   whole when it matches; `skip` counts the characters of a matched ignore token still to be consumed, which
-   keeps the function structurally recursive. *)
-Definition ign_match (ign : option str) (r : str) : nat :=
-  match ign with
-  | Some t => if starts_with t r then length t else O
-  | None => O
-  end.
-Fixpoint take_until_go (toks : list str) (ign : option str) (skip : nat) (d r : str) : str * cur :=
+(* take_until(tokens, ignore): `for ignore_token in ignore: if is_next_token([ignore_token]): match = ignore_token` -
+   the LAST matching ignore token is consumed whole (fix d29898a passes two: backslash backslash, backslash quote);
+   `skip` counts the characters of a matched ignore token still to be consumed, which keeps the function
+   structurally recursive. *)
+Definition ign_match (ign : list str) (r : str) : nat :=
+  fold_left (fun acc t => if starts_with t r then length t else acc) ign O.
+Fixpoint take_until_go (toks : list str) (ign : list str) (skip : nat) (d r : str) : str * cur :=
   match r with
   | [] => ([], mkcur d r)
   | x :: r' =>
@@ -121,7 +119,7 @@ Fixpoint take_until_go (toks : list str) (ign : option str) (skip : nat) (d r : 
       end
     end
   end.
-Definition take_until (toks : list str) (ign : option str) (c : cur) : str * cur :=
+Definition take_until (toks : list str) (ign : list str) (c : cur) : str * cur :=
   take_until_go toks ign O (done c) (rest c).
 
 (* ---------- TagValuePart.__post_init__ ---------- *)
@@ -197,7 +195,7 @@ Definition scan_value (terms : list str) (c : cur) : res (str * option N * bool 
   if is_next [[39]; [34]; [95; 40]]%N c then
     let '(tr, c1) := if is_next [[95; 40]%N] c then (true, skip_ws (snd (take_n 2 c))) else (false, c) in
     let '(qc, c2) := take_n 1 c1 in
-    let '(v, c3) := take_until [qc] (Some (cBSL :: qc)) c2 in
+    let '(v, c3) := take_until [qc] [[cBSL; cBSL]; cBSL :: qc] c2 in
     match qc with
     | [] => Err TemplateSyntaxError               (* is_next_token([""]) -> "Empty token" *)
     | q :: _ =>
@@ -208,7 +206,7 @@ Definition scan_value (terms : list str) (c : cur) : res (str * option N * bool 
       else Ok (qc ++ v, None, tr, c3)
     end
   else
-    let '(v, c1) := take_until (WS ++ FILTER ++ terms) None c in
+    let '(v, c1) := take_until (WS ++ FILTER ++ terms) [] c in
     Ok (v, None, false, c1).
 
 Fixpoint parts_loop (fuel : nat) (ty : stype) (meta : option bool) (key : option str)
@@ -422,7 +420,7 @@ Inductive key_result := KBreak (c : cur) | KKey (key : option str) (c : cur).
 Definition parse_key (c1 : cur) : key_result :=
   if is_next VALUE_START c1 then KKey None c1
   else
-    let '(k, c2) := take_until KEY_STOP None c1 in
+    let '(k, c2) := take_until KEY_STOP [] c1 in
     if match k with [] => at_end c2 | _ => false end then KBreak c2
     else if negb (is_next [[61]%N] c2) then KKey None c1
     else KKey (Some k) (add_token [61]%N c2).
@@ -648,8 +646,7 @@ Fixpoint detailed_go (fuel : nat) (r : str) (n : N) (out : list str) : res (str 
       else if N.eqb ch 37 then
         match r1 with
         | 125%N :: _ => Ok (strip (concat (rev out)), n + 2)%N
-        | _ => let '(content, r2) := until_any [39; 34]%N false r in
-               detailed_go fuel' r2 (n + N.of_nat (length content)) (content :: out)
+        | _ => detailed_go fuel' r1 (n + 1)%N ([ch] :: out)       (* fix fbbed58: a lone % is one character of content *)
         end
       else
         let '(content, r2) := until_any [39; 34; 37]%N false r in
